@@ -17,7 +17,7 @@ From Coq Require Import Reals List Lra Lia ZArith.
 From Coquelicot Require Import Coquelicot.
 From RL Require Import Base.Outcome Base.Num Base.NumR Base.Str Model.Dual Model.Number Model.Linalg
   Model.Spline Model.PPSpline Proofs.DualP Proofs.Dual2P Proofs.SplinePoly Proofs.SplineP
-  Proofs.PPSplineP Proofs.PPSplineHom Proofs.PPSplineR Proofs.PPSplinePoly.
+  Proofs.PPSplineP Proofs.PPSplineHom Proofs.PPSplineR Proofs.PPSplinePoly Proofs.LinalgI Proofs.PPSplineLin.
 Import ListNotations.
 Open Scope R_scope.
 
@@ -39,6 +39,15 @@ Theorem C15_interpolates : forall {T : Type} {H : Num T} {E : Type} {OE : Ops E}
   forall j x v, nth_error tau j = Some x -> nth_error y j = Some v ->
     ppdnev_single xmul s' x (row_m l r (length tau) j) = Ok v.
 Proof. exact @csolve_interpolates. Qed.
+
+(* ... with the solver hypothesis discharged by C13 for float coefficients over R: a non-singular
+   collocation matrix is enough (`nonsingular n B`: B y = 0 only for y = 0, Proofs/LinalgI.v) *)
+Theorem C15_interpolates_R : forall (s s' : @ppspline R R) tau y l r, (1 <= pn s)%nat ->
+  csolve xmul_num s tau y l r false = Ok s' ->
+  (forall B, bsplmatrix s tau l r = Ok B -> nonsingular (pn s) B) ->
+  forall j x v, nth_error tau j = Some x -> nth_error y j = Some v ->
+    ppdnev_single xmul_num s' x (row_m l r (length tau) j) = Ok v.
+Proof. exact interpolates_R. Qed.
 
 (* Dual data: for each name v the sensitivity of the solved spline (any point, any derivative
    order) is the spline solved on the sensitivities of the data; its value is the spline solved on
@@ -123,6 +132,21 @@ Theorem C15_poly_partial : forall k n t (c0 : option (list R)) (s' : @ppspline R
   forall x m, tn t (k - 1) <= x <= tn t n ->
     ppdnev_single xmul_num s' x m = Ok (Derive_n p m x).
 Proof. exact poly_partial. Qed.
+Theorem C15_poly_partial_R : forall k n t (c0 : option (list R)) (s' : @ppspline R R) tau y l r
+    (p : R -> R) cstar,
+  admissible k n t ->
+  csolve xmul_num (mkPP k t c0 n) tau y l r false = Ok s' ->
+  (forall B, bsplmatrix (mkPP k t c0 n) tau l r = Ok B -> nonsingular n B) ->
+  length cstar = n ->
+  (forall j, (k - 1 <= j <= n - 1)%nat -> tn t j < tn t (S j) ->
+     forall x, dotR (map (fun i => P (tn t) j k i x) (seq 0 n)) cstar = p x) ->
+  (forall jx x, nth_error tau jx = Some x -> tn t (k - 1) <= x <= tn t n) ->
+  length y = length tau ->
+  (forall jx x, nth_error tau jx = Some x ->
+     nth_error y jx = Some (Derive_n p (row_m l r (length tau) jx) x)) ->
+  forall x m, tn t (k - 1) <= x <= tn t n ->
+    ppdnev_single xmul_num s' x m = Ok (Derive_n p m x).
+Proof. exact poly_partial_R. Qed.
 (* MISSING for the full C15_poly: the existence of c* for every polynomial of degree < k
    (Marsden's identity).  Proved here only in degree 0 (C15_poly_const_hyp); polynomial data of
    every degree < k is additionally TESTED by the correspondence run (labelled as a test). *)
@@ -142,6 +166,7 @@ Qed.
 
 Print Assumptions C15_errors.
 Print Assumptions C15_interpolates.
+Print Assumptions C15_interpolates_R.
 Print Assumptions C15_data_sensitivity.
 Print Assumptions C15_data_value.
 Print Assumptions C15_unit_data.
@@ -149,4 +174,5 @@ Print Assumptions C15_abscissa.
 Print Assumptions C15_abscissa2.
 Print Assumptions C15_kind_table.
 Print Assumptions C15_poly_partial.
+Print Assumptions C15_poly_partial_R.
 Print Assumptions C15_poly_const_hyp.
